@@ -257,17 +257,46 @@ type End struct {
 	OnClose    func()
 	// CloseDelay makes Close take that long (as closing a TLS connection can).
 	CloseDelay time.Duration
+	// CloseErr is what Close returns after having closed (tls.Conn.Close reports a failed close_notify this way).
+	CloseErr error
+	// Linger makes a Write that fails because this end was closed take that long to return
+	// (a blocked write to a real socket does not come back the instant another goroutine closes it).
+	Linger time.Duration
+	stall   atomic.Bool
+	stalled atomic.Int32
+	done    chan struct{}
 }
+
+// StallWrites makes every Write block until this end is closed: a peer that stopped reading, with full buffers.
+func (e *End) StallWrites(on bool) { e.stall.Store(on) }
+
+// Stalled is the number of Write calls currently blocked by StallWrites.
+func (e *End) Stalled() int { return int(e.stalled.Load()) }
 
 // Pair returns two connected endpoints. a2b configures the direction a->b.
 func Pair(a2b, b2a Plan) (a, b *End) {
 	pa := newPipe(a2b)
 	pb := newPipe(b2a)
-	return &End{name: "a", r: pb, w: pa}, &End{name: "b", r: pa, w: pb}
+	return &End{name: "a", r: pb, w: pa, done: make(chan struct{})}, &End{name: "b", r: pa, w: pb, done: make(chan struct{})}
 }
 
 func (e *End) Read(b []byte) (int, error)  { return e.r.read(b) }
-func (e *End) Write(b []byte) (int, error) { return e.w.write(b) }
+func (e *End) Write(b []byte) (int, error) {
+	if e.stall.Load() {
+		e.stalled.Add(1)
+		<-e.done
+		e.stalled.Add(-1)
+		if e.Linger > 0 {
+			time.Sleep(e.Linger)
+		}
+		return 0, io.ErrClosedPipe
+	}
+	n, err := e.w.write(b)
+	if err != nil && e.Linger > 0 && e.closed.Load() {
+		time.Sleep(e.Linger)
+	}
+	return n, err
+}
 
 // Close closes both directions of this end: local readers/writers fail, the
 // peer drains what was written and then sees EOF, peer writes fail.
@@ -276,6 +305,7 @@ func (e *End) Close() error {
 	if e.closed.Swap(true) {
 		return net.ErrClosed
 	}
+	close(e.done)
 	if e.CloseDelay > 0 {
 		time.Sleep(e.CloseDelay)
 	}
@@ -290,7 +320,7 @@ func (e *End) Close() error {
 	if e.OnClose != nil {
 		e.OnClose()
 	}
-	return nil
+	return e.CloseErr
 }
 
 // Closed reports whether Close was called on this end.
